@@ -491,13 +491,18 @@ def run(rep, tier, seed, replay):
     ncpu = min(core.NCPU, 12)
     # 1. design checks of the specification of today's code
     res = core.tlc_check('MC_GroupLiveness.tla', 'MC_GroupLiveness.cfg' if quick else 'MC_GroupLiveness_thorough.cfg',
-                         timeout=3000, coverage=not quick, workers=ncpu)
+                         timeout=3000, workers=ncpu)
     rep.add_design('MC_GroupLiveness', res)
     r2 = core.tlc_check('MC_GroupLiveness.tla', 'MC_GroupLiveness_race.cfg' if quick else
-                        'MC_GroupLiveness_race_thorough.cfg', timeout=3000, coverage=not quick, workers=ncpu)
+                        'MC_GroupLiveness_race_thorough.cfg', timeout=3000, workers=ncpu)
     rep.add_design('MC_GroupLiveness_race', r2)
-    never = set(res.get('zero_cov', [])) & set(r2.get('zero_cov', []))
-    rep.cov['coverage_zero_actions'] = sorted(never)
+    if not quick:
+        # action coverage is measured on the small configurations (coverage slows the large ones down several
+        # times); an action counts as never taken only if no configuration takes it
+        c1 = core.tlc_check('MC_GroupLiveness.tla', 'MC_GroupLiveness.cfg', timeout=1500, coverage=True, workers=ncpu)
+        c2 = core.tlc_check('MC_GroupLiveness.tla', 'MC_GroupLiveness_race.cfg', timeout=1500, coverage=True,
+                            workers=ncpu)
+        rep.cov['coverage_zero_actions'] = sorted(set(c1.get('zero_cov', [])) & set(c2.get('zero_cov', [])))
     # 2. defective variants of single model decisions: TLC's counterexamples are directed stimuli; each is
     #    followed by a period in which every member keeps heartbeating (a timer left behind then shows)
     directed = []
@@ -525,21 +530,20 @@ def run(rep, tier, seed, replay):
     ppaths, pcov, pedges = graph.cover(gp)
     pathb = [[label_step(gp['edges'][i][2]) for i in p] for root, p in ppaths]
     rep.cov['step_sequences_total'] = len(pathb)
-    if quick:
-        rng.shuffle(pathb)
-        keep, spent = [], 0.0
-        for p in pathb:
-            if spent + cost(p) <= 60:
-                keep.append(p)
-                spent += cost(p)
-        pathb = keep
+    rng.shuffle(pathb)
+    keep, spent = [], 0.0
+    for p in pathb:
+        if spent + cost(p) <= (60 if quick else 2400):
+            keep.append(p)
+            spent += cost(p)
+    pathb = keep
     # every such sequence ends with a period of correct heartbeats of everybody
     pathb = [p if p[-1]['a'] == 'Wait' else p + [ALL_GOOD] for p in pathb]
     rep.cov['step_sequences_replayed'] = len(pathb)
     # 4. a large simulated pool, reduced to the behaviours that cover the situation features
     pool = core.tlc_simulate('MC_GroupLiveness.tla', 'Sim_GroupLiveness.cfg', 4000 if quick else 20000,
                              12 if quick else 14, seed, timeout=900)
-    simb, fcov, ftot = select(pool, 110 if quick else 1500, rng, per_feature=1 if quick else 3)
+    simb, fcov, ftot = select(pool, 110 if quick else 1200, rng, per_feature=1 if quick else 3)
     rep.cov['situation_features_in_pool'] = ftot
     rep.cov['situation_features_replayed'] = fcov
     behaviours = []
@@ -547,7 +551,7 @@ def run(rep, tier, seed, replay):
         behaviours.append(to_stimulus(steps, len(behaviours) + 1))
     # 5. execute on the real cluster, 6. TLC judges
     with core.scratch('x01') as d:
-        trace = execute(behaviours, d, workers=4 if quick else 6, timeout=1500 if quick else 2400)
+        trace = execute(behaviours, d, workers=4 if quick else 8, timeout=1500 if quick else 2400)
         dropped = execute.dropped
         tr = judge(rep, behaviours, trace)
     rep.cov['traces_validated_against_impl'] = len(behaviours) - dropped
